@@ -3,7 +3,7 @@
 use crate::show::json_str;
 use rand_chacha::ChaCha8Rng;
 use rand_core::SeedableRng;
-use std::cell::RefCell;
+use std::cell::{Cell, RefCell};
 use std::panic::{AssertUnwindSafe, catch_unwind};
 
 /// A named search case: one public API form of one property.
@@ -52,11 +52,23 @@ pub struct Ctx {
 
 thread_local! {
     static LAST_PANIC: RefCell<Option<String>> = const { RefCell::new(None) };
+    static IN_CALL: Cell<u32> = const { Cell::new(0) };
 }
 
-/// Install a panic hook that prints nothing and remembers message + location.
+/// Install a panic hook that, for panics raised inside [`call`], prints nothing and remembers
+/// message + location; any other panic (a bug in the harness) goes to the previous hook.
 pub fn install_silent_hook() {
-    std::panic::set_hook(Box::new(|info| {
+    static ONCE: std::sync::Once = std::sync::Once::new();
+    ONCE.call_once(install_hook);
+}
+
+fn install_hook() {
+    let previous = std::panic::take_hook();
+    std::panic::set_hook(Box::new(move |info| {
+        if IN_CALL.with(|d| d.get()) == 0 {
+            previous(info);
+            return;
+        }
         let msg = if let Some(s) = info.payload().downcast_ref::<&str>() {
             (*s).to_string()
         } else if let Some(s) = info.payload().downcast_ref::<String>() {
@@ -74,7 +86,10 @@ pub fn install_silent_hook() {
 
 /// Run `f`, turning a panic into `Err(message)`.
 pub fn call<R>(f: impl FnOnce() -> R) -> Result<R, String> {
-    match catch_unwind(AssertUnwindSafe(f)) {
+    IN_CALL.with(|d| d.set(d.get() + 1));
+    let r = catch_unwind(AssertUnwindSafe(f));
+    IN_CALL.with(|d| d.set(d.get() - 1));
+    match r {
         Ok(r) => Ok(r),
         Err(payload) => {
             let from_hook = LAST_PANIC.with(|p| p.borrow_mut().take());
